@@ -5,9 +5,10 @@
 use crate::visitor::{
     csi_methods::CsiMethods,
     ident_provider::{IdentKind, IdentProvider},
+    visitor_util::get_dd_paren_span,
 };
 use swc::atoms::JsWord;
-use swc_common::{util::take::Take, SyntaxContext, DUMMY_SP};
+use swc_common::{util::take::Take, Spanned, SyntaxContext, DUMMY_SP};
 use swc_ecma_ast::*;
 use swc_ecma_visit::{Visit, VisitMut, VisitMutWith};
 
@@ -303,6 +304,7 @@ impl OptChainTransform {
         csi_methods: &CsiMethods,
         ident_provider: &mut dyn IdentProvider,
     ) -> TransformResult<Expr> {
+        let chain_span = opt_chain_expr.span();
         let visitor = &mut OptChainVisitor::default(ident_provider, csi_methods);
         opt_chain_expr.visit_mut_with(visitor);
 
@@ -339,8 +341,9 @@ impl OptChainTransform {
 
         visitor.assignments.push(Expr::Cond(cond));
 
+        // the injected parentheses point at the start of the chain (a position inside the statement)
         let expr = Expr::Paren(ParenExpr {
-            span: DUMMY_SP,
+            span: get_dd_paren_span(&chain_span),
             expr: Box::new(Expr::Seq(SeqExpr {
                 span: DUMMY_SP,
                 exprs: visitor
